@@ -80,7 +80,15 @@ pub fn junk_alphabet() -> Vec<(&'static str, Vec<u8>)> {
         ("*digits 0xFF 0xFE;", { let mut v = format!("*{}", &good[..24]).into_bytes(); v.extend_from_slice(&[0xFF, 0xFE, b';']); v }),
         ("@0x80;", vec![b'@', 0x80, b';']),
         ("*cafe-acute;", "*caf\u{e9};".as_bytes().to_vec()),
+        ("keep-alive *0000;", b"*0000;".to_vec()),
+        ("keep-alive *;", b"*;".to_vec()),
         ("*27 digits e-acute ;", format!("*{}\u{e9}x;", &good[..27]).into_bytes()),
+        // lines of a plausible length whose pieces are each consistent (a short reply written twice; a short
+        // reply's head and parity around filler; the first half of a long frame)
+        ("DF11 reply twice", { let f = frames::df11(5, A, 0).hex(); format!("{f}{f}").into_bytes() }),
+        ("DF11 head, filler, parity", { let f = frames::df11(7, A, 0).hex(); format!("{}AAAAAAAAAAAAAA{}", &f[..8], &f[8..]).into_bytes() }),
+        ("DF4 reply twice", { let f = frames::df4(A, frames::ac13_for_alt(9000)).hex(); format!("{f}{f}").into_bytes() }),
+        ("first half of a long frame", good[..14].as_bytes().to_vec()),
     ]
 }
 const NON_UTF8: [usize; 7] = [8, 9, 11, 12, 14, 22, 23];
@@ -262,7 +270,13 @@ fn run(ctx: &mut Ctx) {
             if !ctx.mine(job) {
                 continue;
             }
-            for (j, reps) in [(6usize, 1usize), (6, 2), (6, 3), (0, 1), (8, 2), (15, 1)] {
+            let mut plan: Vec<(usize, usize)> = vec![(6usize, 1usize), (6, 2), (6, 3), (0, 1), (8, 2), (15, 1)];
+            for j in 0..junk.len() {
+                if junk[j].1.len() < 1000 && ![6usize, 0, 15].contains(&j) {
+                    plan.push((j, 1));
+                }
+            }
+            for (j, reps) in plan {
                 let ins: Vec<(usize, usize)> = (0..reps).map(|_| (pos, j)).collect();
                 ctx.count("sweep-cadence");
                 check_file(ctx, &cfg0, "cadence26", &long, &clean, &ins, &junk);
